@@ -110,6 +110,23 @@ func checkC17(c c17Case, o *Obs) error {
 		if encoding.MakeEncodingArray()[ch] != 0 || encoding.MakeEncodingArrayHardGaps()[ch] != 0 {
 			return fmt.Errorf("byte %q outside the alphabet has an encoding", ch)
 		}
+	case "codons":
+		// a sequence of codons translates codon by codon: no state may leak from one codon to the next
+		o.NonTrivial()
+		o.Label("multi-codon")
+		want := translateModel(c.Arg)
+		got, err := alphabet.Translate(c.Arg, false)
+		if err != nil || got != want {
+			return fmt.Errorf("Translate(%q,false) = %q,%v; codon by codon the every-expansion rule gives %q", c.Arg, got, err, want)
+		}
+		gotS, errS := alphabet.Translate(c.Arg, true)
+		if strings.Contains(want, "X") {
+			if errS == nil {
+				return fmt.Errorf("Translate(%q,strict) = %q without error; codon-by-codon translation is %q", c.Arg, gotS, want)
+			}
+		} else if errS != nil || gotS != want {
+			return fmt.Errorf("Translate(%q,strict) = %q,%v; want %q", c.Arg, gotS, errS, want)
+		}
 	case "string":
 		s := c.Arg
 		o.LabelIf(len(s) >= 2, "string:len>=2")
@@ -185,6 +202,24 @@ func reverseString(s string) string {
 }
 
 func genC17(t *rapid.T) c17Case {
+	if rapid.IntRange(0, 2).Draw(t, "kind") == 0 {
+		// 2..8 codons: resolvable ambiguous codons, plain codons and untranslatable ones mixed
+		resolvable := []string{"YTA", "YTG", "YTR", "MGA", "MGG", "MGR", "TRA", "TAR", "CTN", "ACN", "AGY", "ATH", "TTR", "GGN", "AAR"}
+		var sb strings.Builder
+		for k := rapid.IntRange(2, 8).Draw(t, "ncodons"); k > 0; k-- {
+			switch rapid.IntRange(0, 3).Draw(t, "codonKind") {
+			case 0:
+				sb.WriteString(rapid.SampledFrom(resolvable).Draw(t, "resolvable"))
+			case 1:
+				sb.WriteString(genACGT(t, 3, "plainCodon"))
+			default:
+				for i := 0; i < 3; i++ {
+					sb.WriteByte(iupac15[rapid.IntRange(0, 14).Draw(t, "anySym")])
+				}
+			}
+		}
+		return c17Case{Kind: "codons", Arg: sb.String()}
+	}
 	n := rapid.IntRange(0, 40).Draw(t, "len")
 	b := make([]byte, n)
 	for i := range b {
@@ -207,6 +242,20 @@ func TestC17(t *testing.T) {
 		for i := 0; i < len(accepted32); i++ {
 			if !yield(c17Case{Kind: "char", Arg: accepted32[i : i+1]}) {
 				return
+			}
+		}
+		// every codon followed by each of a few followers, and preceded by it (state carried between codons)
+		followers := []string{"GCT", "ATG", "TAA", "CTN", "YTR", "NNN", "RAY", "MGR"}
+		for i := 0; i < 15; i++ {
+			for j := 0; j < 15; j++ {
+				for k := 0; k < 15; k++ {
+					c := string([]byte{iupac15[i], iupac15[j], iupac15[k]})
+					for _, f := range followers {
+						if !yield(c17Case{Kind: "codons", Arg: c + f}) || !yield(c17Case{Kind: "codons", Arg: f + c + f}) {
+							return
+						}
+					}
+				}
 			}
 		}
 		for ch := 1; ch < 128; ch++ {
